@@ -6,3 +6,4 @@ open Model.SlicesGen
 #print axioms findHeads_eq
 #print axioms updateClock_eq
 #print axioms addNextEntry_eq
+#print axioms admission_eq
